@@ -86,6 +86,7 @@ class GatherGen:
             else:
                 c = self.s.emit("OpWith", col["slot"], vals)
             col["children"].append(c)
+            col.setdefault("vals", []).append(vals)
 
     def update(self, slot, ty, nk):
         r = self.r; s = self.s
@@ -160,9 +161,17 @@ class GatherGen:
                 if r.random() < 0.4: self.add_children(col, 1, 2)
             self.updates(0.5)
             vecs = [c for c in self.cols if c["form"] == "vec" and c["children"]]
-            if vecs and r.random() < 0.4:
+            if vecs and r.random() < 0.5:
                 v = r.choice(vecs)
-                self.s.emit("OpReset", v["slot"]) if r.random() < 0.3 else None
+                kk = r.random()
+                if kk < 0.25: self.s.emit("OpReset", v["slot"]); v["vals"] = []
+                elif v.get("vals"):
+                    # a child removed between two collections (by value list or by label map) must be gone from the next one
+                    vals = v["vals"].pop(r.randrange(len(v["vals"])))
+                    if kk < 0.6: self.s.emit("OpRemove", v["slot"], vals)
+                    else:
+                        kvs = list(zip(v["labels"], vals)); r.shuffle(kvs)
+                        self.s.emit("OpRemoveMap", v["slot"], kvs)
             self.gathers(regs)
         if k > 0.7 and self.cols:
             # unregister one collector everywhere, gather again
